@@ -18,7 +18,8 @@ TcDefectNames == {"tc-special-set", "tc-dialog-no-close-p", "tc-endbr-keeps-fram
                   "tc-adoption-inner-loop-3", "tc-anyotherend-ignores-namespace", "tc-isindex-expansion",
                   "tc-no-rb-rtc", "tc-table-pre-lf-kept", "tc-fragment-table-in-table-dropped", "tc-fragment-tokenizer-state",
                   "tc-popuntil-ignores-namespace", "tc-foreign-endtag-p-br", "tc-svg-no-fedropshadow", "tc-no-template",
-                  "tc-reset-cell-context", "tc-adoption-no-current-node-step"}
+                  "tc-reset-cell-context", "tc-adoption-no-current-node-step",
+                  "tc-nested-dispatch-clears-foster"}
 Std(d) == d \notin KnownDefects
 \* html5lib has no template support at all: <template> is an ordinary (special) element.  TPL selects the standard's rules:
 \* template contents (a node of kind "content", first child of the template element), the "in template" insertion mode,
@@ -357,6 +358,10 @@ InHeadListStd == {N_base, N_basefont, N_bgsound, N_link, N_meta, N_noframes, N_s
 \* in column group, "anything else": ignored when the current node is not a colgroup element
 ColgroupIgnore(ps) == IF TPL THEN ~(CurNd(ps).ns = "html" /\ CurName(ps) = N_colgroup) ELSE CurName(ps) = N_html
 
+\* "act as if an end tag had been seen" inside an in-body start-tag rule: the in-body rules.  html5lib used to dispatch through the
+\* CURRENT phase; from a table mode that detour switched foster parenting off before the new element was inserted (repaired)
+NestedMode(ps) == IF Std("tc-nested-dispatch-clears-foster") THEN "inBody" ELSE ps.mode
+
 \* ---- start tags ----
 StartTag(ps, mode, tok) ==
   LET nm == tok.n IN
@@ -420,11 +425,11 @@ StartTag(ps, mode, tok) ==
                 RECURSIVE Walk(_)
                 Walk(i) == IF i = 0 THEN p0
                            ELSE LET nd == p0.nodes[p0.open[i]] IN
-                                IF nd.n \in stop THEN NoRe(EndTag(p0, p0.mode, ImpliedEndTok(nd.n)))
+                                IF nd.n \in stop THEN NoRe(EndTag(p0, NestedMode(p0), ImpliedEndTok(nd.n)))
                                 ELSE IF IsSpecial(nd) /\ nd.n \notin {N_address, N_div, N_p} THEN p0
                                 ELSE Walk(i - 1)
                 p1 == Walk(Len(p0.open))
-                p2 == IF NameInScope(p1, N_p, "button") THEN NoRe(EndTag(p1, p1.mode, ImpliedEndTok(N_p))) ELSE p1
+                p2 == IF NameInScope(p1, N_p, "button") THEN NoRe(EndTag(p1, NestedMode(p1), ImpliedEndTok(N_p))) ELSE p1
             IN NoRe(InsertHtml(p2, tok))
         ELSE IF nm = N_plaintext THEN NoRe([InsertHtml(CloseP(ps), tok) EXCEPT !.tokReq = "plaintext"])
         ELSE IF nm = N_a THEN
@@ -490,7 +495,7 @@ StartTag(ps, mode, tok) ==
             NoRe(InsertHtml(IF NameInScope(ps, N_ruby, "default")
                             THEN GenImplied(ps, IF Std("tc-no-rb-rtc") THEN N_rtc ELSE None) ELSE ps, tok))
         ELSE IF nm \in {N_option, N_optgroup} THEN
-            LET p1 == IF CurName(ps) = N_option THEN NoRe(EndTag(ps, ps.mode, ImpliedEndTok(N_option))) ELSE ps
+            LET p1 == IF CurName(ps) = N_option THEN NoRe(EndTag(ps, NestedMode(ps), ImpliedEndTok(N_option))) ELSE ps
             IN NoRe(InsertHtml(Reconstruct(p1), tok))
         ELSE IF nm \in {N_math, N_svg} THEN
             LET ns == IF nm = N_math THEN "math" ELSE "svg"
